@@ -75,7 +75,12 @@ pub fn gen_world(prop: &str, flavor: Flavor, seed: u64, index: u64, tier: Tier) 
         Tier::Quick => JGRID[(index / 6 % 8) as usize],
         Tier::Thorough => (index / 6) % 250,
     };
-    s.sched.jitter = vec![vec![j; 4096]];
+    if index % 2 == 1 {
+        // jitter as a function of the registration time: different registrations draw different values
+        s.sched.jitter_time_seed = Some(mix(rs, 0x717));
+    } else {
+        s.sched.jitter = vec![vec![j; 4096]];
+    }
     // a querier peer per segment
     for (k, i) in ifs.iter().enumerate() {
         let has4 = i.addrs.iter().any(|a| a.ip.contains('.'));
@@ -171,6 +176,13 @@ pub fn gen_world(prop: &str, flavor: Flavor, seed: u64, index: u64, tier: Tier) 
             slot += 1;
         }
         t_end = t_end.max(t + 2000);
+    }
+    // C09: an interface that is disabled from the start and enabled after the registrations: the services are
+    // never announced there, so nothing may be withdrawn there either
+    if flavor == Flavor::C09 && ifs.len() >= 2 && rng.below(3) == 0 {
+        let name = ifs[1].name.clone();
+        s.op(0, Op::DisableIf { d: 0, kinds: vec![IfKindSpec::Name(name.clone())] });
+        s.op(t_reg + rng.below(1500), Op::EnableIf { d: 0, kinds: vec![IfKindSpec::Name(name)] });
     }
     // queries
     let n_q = match flavor {
@@ -316,9 +328,9 @@ fn query_deliveries<'t>(tr: &'t Trace, scn: &Scenario, op_idx: usize) -> Vec<&'t
 /// Times at which the daemon has scheduled work of its own (probe steps, announcements, goodbye repeats):
 /// a query read in such a step cannot be told apart from that work and is not judged.
 fn scheduled_times(scn: &Scenario, tr: &Trace, m: &TxModel) -> Vec<u64> {
-    let j = scn.params.get("jitter").and_then(|v| v.as_u64()).unwrap_or(0);
     let mut v = vec![];
     for (si, s) in m.svcs.iter().enumerate() {
+        let j = jitter_at(scn, m.d, s.reg_t);
         for k in 0..8 {
             v.push(s.reg_t + j + 250 * k);
         }
@@ -753,9 +765,9 @@ impl Property for C07 {
         let strict_run = scn.sched.max_latency == 0 && !scn.ops.iter().any(|o| matches!(o.op, Op::Stall { .. })) && !renamed;
         let stalled = scn.ops.iter().any(|o| matches!(o.op, Op::Stall { .. }));
         let lat = sl(scn);
-        let jit = scn.params.get("jitter").and_then(|v| v.as_u64()).unwrap_or(0);
         let horizon = tr.stats.sim_ms;
         for (si, s) in m.svcs.iter().enumerate() {
+            let jit = jitter_at(scn, d, s.reg_t);
             let usable = m.usable(scn, s);
             if usable.is_empty() {
                 continue;
@@ -867,7 +879,11 @@ impl Property for C07 {
                         ok = p2 - p1 >= 250 && p3 - p2 >= 250 && a.t - p3 >= 250;
                         if ok && strict_run {
                             // a lost tiebreak against nobody cannot happen here: exactly three probes, exact times
-                            if times.len() != 3 || p1 != s.reg_t + jit || p2 - p1 != 250 || p3 - p2 != 250 || a.t != p1 + 750 {
+                            // with a host name shared with a service registered around the same time the announcement
+                            // also waits for that service's host-name probe: only the lower bound is exact then
+                            let overlap = m.svcs.iter().enumerate().any(|(k, o)| k != si && o.host.eq_ci(&s.host) && o.reg_t.abs_diff(s.reg_t) < 1100);
+                            let a_ok = if overlap { a.t >= p1 + 750 && a.t <= p1 + 750 + 1100 } else { a.t == p1 + 750 };
+                            if times.len() != 3 || p1 != s.reg_t + jit || p2 - p1 != 250 || p3 - p2 != 250 || !a_ok {
                                 j.fail("C07-R1", format!("service {} on {}: probes at {:?}, first announcement at {}; expected probes at {}, {}, {} and the announcement at {} (register t={}, jitter {})", s.fullname.escaped(), chan, times, a.t, s.reg_t + jit, s.reg_t + jit + 250, s.reg_t + jit + 500, s.reg_t + jit + 750, s.reg_t, jit));
                             }
                         }
